@@ -209,6 +209,11 @@ class AsyncProtocol(Protocol, EventManager[PhysicalDevice]):
         await self.wait_until_done()
         if self.connected.is_set():
             await self._connection_close()
+        else:
+            # A connection loss may have been interrupted by the shutdown
+            # after the connected flag was cleared, but before the writer
+            # was closed.
+            await self.close_writer()
 
         await asyncio.gather(*(device.shutdown() for device in self.data.values()))
 
